@@ -14,7 +14,9 @@ only the workers' programs. It is independent of how the logger is programmed.
   began, was accepted (its level was enabled and the logger not shut down when the call began) and
   whose write the environment did not fail, has been written when that FlushBuffer returns.
 A record logged through a derived `slog.Logger` after `Shutdown` may or may not be written (the
-statement does not say), so it is never *required*.
+statement does not say), so it is never *required*; likewise a record logged through a stale
+`slog.Logger` (obtained before `StartBuffering`; it is a different logger with the old configuration).
+The order and exactly-once clauses apply to everything that is written.
 -/
 namespace Rivaas.LogBuf
 
@@ -59,7 +61,7 @@ structure DMon where
 
 /-- must the record of this call be delivered, given the logger state when the call began -/
 def mustDeliver (level : Nat) (shutdown : Bool) (c : LogCall) : Bool :=
-  decide (level ≤ c.lvl) && !shutdown && !c.fail
+  decide (level ≤ c.lvl) && !shutdown && !c.fail && !c.stale
 
 def dStep (custom : Bool) (progs : List (List Op)) (m : DMon) : Ev → DMon
   | .begin g i =>
@@ -84,6 +86,11 @@ def dStep (custom : Bool) (progs : List (List Op)) (m : DMon) : Ev → DMon
 
 def deliveryMonitor (custom : Bool) (progs : List (List Op)) (tr : List Ev) : DMon :=
   tr.foldl (dStep custom progs) {}
+
+/-- exclusion predicate of the recorded finding K20f, stated on the input: some worker logs through a
+    `slog.Logger` it obtained before `StartBuffering` -/
+def hasStale (progs : List (List Op)) : Bool :=
+  progs.any fun p => p.any fun op => match op with | .log c => c.stale | _ => false
 
 /-- the C20 buffering oracle -/
 def specOK (custom : Bool) (progs : List (List Op)) (tr : List Ev) : Bool :=
